@@ -162,7 +162,7 @@ package types
 //@ spec func bucketSum(s *VoteSet, k string) int = ite(has(s.votesByBlock, k), s.votesByBlock[k].sum, 0)
 
 //@ func (voteSet *VoteSet) addVerifiedVote(vote *Vote, blockKey string, votingPower int64) (added bool, conflicting *Vote)
-//@   for C02 C01 C03
+//@   for C02 C01 C03 C19
 //@   requires wfVS(voteSet) && vote != nil && vote.ValidatorIndex < len(voteSet.votes)
 //@   requires 0 <= votingPower && votingPower <= 1152921504606846975
 //@   nooverflow
